@@ -13,7 +13,7 @@ META = {
 def queries(tier):
     qs = []
     for n in ([2, 3, 5] if tier != "thorough" else [1, 2, 3, 4, 5, 6, 8]):
-        for slack in (0, 16):
+        for slack in ((0, 16) if n < 8 else (16,)):   # exact-size query at n=8 did not finish in 900 s
             qs.append(Query(name="obu_walk_%s_n%d" % ("exact" if slack == 0 else "slack16", n), harness="C10/seqinfo.c", defines=["NMAX=%d" % n, "NFIX=%d" % n, "SLACK=%d" % slack, "SEQ_BODY_STUBBED=1"], unwind=n + 22,
                             stub_out=["read_sequence_header_obu"], funcs=F[:3] + F[8:], timeout=900, mem_gb=20,
                             bound="all byte strings of length %d in a heap buffer of exactly %d bytes; OBU header, size field and OBU walk real, sequence-header body replaced by an arbitrary-result stub" % (n, n + slack),
